@@ -19,7 +19,7 @@ ASSUMPTIONS = ['all scalars are pointer-width so that layout rules never reject 
 
 
 def bounds(tier):
-    return {'types': '<= 3 (quick), <= 4 (thorough); the statement\'s ~12 is outside the bound', 'fields per type': '<= 2', 'modules': 2,
+    return {'types': '<= 3 (quick), <= 4 (thorough) with free targets; thorough: 5 in a ring (each type refers to the next one); the statement\'s ~12 is outside the bound', 'fields per type': '<= 2', 'modules': 2,
             'pointer_size': [4, 8]}
 
 
@@ -55,6 +55,16 @@ def slices(tier, rng):
     out.append(mk('k3-nf1-ps4', 3, 4, 1, [0, 1, 2, 4, 5, 8] if tier == 'quick' else sc4, [1] if tier == 'quick' else [0, 1]))
     out.append(mk('k2-nf1-ps8', 2, 8, 1, sc8, [0, 1, 2]))
     out.append(mk('k2-nf1-enum-ps4', 2, 4, 1, [0, 3, 7, 5], [0]))
+    # a ring of five types in two modules: T_i has one field that is a scalar, T_{i+1} by value, a pointer to it, an array of it, or an
+    # undefined name — by-value chains of depth 1..5, the by-value 5-cycle, pointer cycles of every length up to 5
+    def ring(a, k=5):
+        A = assume(a, k, 4, 1, [0, 1, 2, 3, 5], [0], nf_exact=[1] * k)
+        for i in range(k):
+            kd, tg = fld(a, i, 0)
+            A.append(z3.Implies(z3.Or(kd == 1, kd == 2, kd == 3), tg == (i + 1) % k))
+        return A
+    if tier != 'quick':
+        out.append(Slice('ring5-ps4', 't_graph', 3 + 7 * 5, ring, opts={'must_reach': ['ok', 'err']}, ctx={'k': 5, 'ps': 4}))
     if tier != 'quick':
         out.append(mk('k3-nf1-ps8', 3, 8, 1, sc8, [0, 2]))
         # three types with two fields each exceed 10^6 descriptions: T0 and T1 have exactly two by-value / pointer fields, T2 at most one
